@@ -11,7 +11,7 @@ fn header() -> String {
 pub fn run(args: &Args) {
     quiet_panics();
     let mut sum = Summary::new("C01", b::RULE_B);
-    let mut shards = CoqShards::new(&header(), 100);
+    let mut shards = CoqShards::new(&header(), 40);
     let mut rng = Rng::new(args.seed);
     if let Some(f) = &args.replay {
         let txt = std::fs::read_to_string(f).expect("replay file");
